@@ -28,7 +28,7 @@ type RespSpec struct {
 	TrailersOnly bool // gRPC / gRPC-Web: no body, status in the HTTP headers
 	HexLower     bool // lower-case hex digits in grpc-message
 	PadDetails   bool // padded base64 in grpc-status-details-bin
-	TrailerCase  int  // gRPC-Web trailer block names: 0 lower, 1 canonical, 2 upper
+	TrailerCase  int  // gRPC-Web trailer block: names 0 lower, 1 canonical, 2 upper; 3 lower without a blank after the colon, 4 lower with a tab
 	OmitMessage  bool // Connect error JSON without "message" when it is empty
 	MetaInEnd    bool // Connect streaming: send an (empty) "metadata" object even without metadata
 	CompressEnd  bool // compress the terminator frame too (Connect end-of-stream, gRPC-Web trailer frame) when Alg is set
@@ -168,14 +168,19 @@ func (s *RespSpec) Build() (status int, header http.Header, body []byte, trailer
 	var lines []string
 	for _, k := range keys {
 		name := k
+		sep := ": "
 		switch s.TrailerCase {
 		case 0:
 			name = strings.ToLower(k)
 		case 2:
 			name = strings.ToUpper(k)
+		case 3: // field-name ":" OWS field-value: the optional whitespace may be absent (Envoy writes it so)
+			name, sep = strings.ToLower(k), ":"
+		case 4: // ... or a tab
+			name, sep = strings.ToLower(k), ":\t"
 		}
 		for _, v := range tr[k] {
-			lines = append(lines, name+": "+v)
+			lines = append(lines, name+sep+v)
 		}
 	}
 	// an HTTP/1 field block: every line ends with CRLF, no terminating empty line
